@@ -225,6 +225,10 @@ func c05addCases(res *hx.Result, cs *hx.Cases, id string, r c05rt.Record, refuse
 		if !l.Seen {
 			continue // no frame was observed: nothing to compare (the oracle has spoken)
 		}
+		if l.Raw {
+			res.Dist("leg-with-raw-data-oracle-only")
+			continue
+		}
 		if l.NoModel {
 			res.Dist("leg-too-large-for-a-case")
 			continue
